@@ -3113,6 +3113,10 @@ func (r *stack) methodAppend(meth PushPolicy, x ...any) *stack {
 	var pct int
 	for i := 0; i < len(x); i++ {
 		var err error
+		if !r.canPushNester(x[i]) {
+			// no-nesting applies whatever the policy would say
+			continue
+		}
 		if !r.isFull() {
 			if err = meth(x[i]); err != nil {
 				r.setErr(err)
